@@ -89,7 +89,7 @@ def h_hist_OpenOrCreateFile : Nat := 0xab958d9ca1635f4b
 def h_hist_openFile : Nat := 0x8a9c3bde26b1aeb2
 
 /-- hash of the normalised skeleton of createFile (internal/util/utils.go) -/
-def h_hist_createFile : Nat := 0x22b178cdaab95c58
+def h_hist_createFile : Nat := 0xbce55f01177cf10f
 
 /-- hash of the normalised skeleton of LoadLatest (internal/persistence/filecache/filecache.go) -/
 def h_fcache_Cache_LoadLatest : Nat := 0x975fd437f751abb2
